@@ -101,7 +101,7 @@ func hasEvent(evs []string, want string) bool {
 }
 
 func runC16(e *Env) {
-	e.Rule = "ALL 256 controller types (128 subsets of {Index, Create, Store, Show, Edit, Update, Delete} x with/without Uses(); Uses() returns a marker middleware for every action incl. unimplemented ones) x base paths {/, /api/, /v1/admin/; inside a group also the empty string, api/, v1/admin/} x inside/outside a Group (single group, nested groups 2+1 middleware, 3 middleware passed to Resource itself: slices with spare capacity), registered on fresh routers several times (every third plain case mounts the same controller type a second time under /second/ on the same router and checks both mounts) (map iteration inside Resource is random), HandleMethodNotAllowed on, cache on/off. Observed: Router.Routes() as (method, path, name) triples, NamedRoutes(), and the answers to 9 methods x {/res, /res/, /res/create, /res/7, /res/create/edit, /res/7/edit, /res/7/x, /other}: answering action + id, marker middleware seen, 405 + Allow set, 404. Oracle: the documented seven-row table filtered by the subset (+ the C06 resolution order). Resource(base, T{}) and Resource(base, &string) must panic. Non-trivial: every (type, base, group) combination; distinct by it."
+	e.Rule = "ALL 256 controller types (128 subsets of {Index, Create, Store, Show, Edit, Update, Delete} x with/without Uses(); Uses() returns a marker middleware for every action incl. unimplemented ones) x base paths {/, /api/, /v1/admin/; inside a group also the empty string, api/, v1/admin/} x inside/outside a Group (single group, nested groups 2+1 middleware, 3 middleware passed to Resource itself: slices with spare capacity), registered on fresh routers several times (every third plain case mounts the same controller type a second time under /second/ on the same router and checks both mounts) (map iteration inside Resource is random), HandleMethodNotAllowed on, cache on/off. Observed: Router.Routes() as (method, path, name) triples, NamedRoutes(), and the answers to 9 methods x {/res, /res/, /res/create, /res/7, /res/create/edit, /res/7/edit, /res/7/x, /other}: answering action + id, marker middleware seen, 405 + Allow set, 404. Oracle: the documented seven-row table filtered by the subset (+ the C06 resolution order). Resource(base, T{}) and Resource(base, &string) must panic. Non-trivial: every (type, base, group) combination; distinct by it. Every controller instance carries a tag that its actions report (the answering action must belong to the instance given to that Resource call); Uses() maps also contain keys that are no action names (case variants, empty, unknown) whose middleware must never run."
 	e.Assumptions = []string{
 		"non-strict mode (the documented table is the non-strict one); base paths end in '/' as documented",
 	}
